@@ -263,6 +263,9 @@ class Impl:
                     identity_group=(group_name(a['group']) if a['group'] is not None else None),
                     traits=a['traits'], schedule_once=a['once'])
                 self.app_ids[nm] = a['name']
+                # what the submitter declared, kept apart from what the Application object made of it: the C04 / C02
+                # oracles judge against the declaration (a declared limit the object lost is a violation, not a licence)
+                self.__dict__.setdefault('declared_limits', {})[a['name']] = {l: v for l, v in a['limits']}
                 self.cell.add_app(alloc, app)
         elif k == 'RemoveApp':
             self.cell.remove_app(app_name(op[1]))
@@ -430,7 +433,9 @@ class Impl:
                 'server_name': app.server,
                 'identity': app.identity, 'expiry': app.placement_expiry, 'prio': app.priority,
                 'demand': [int(x) for x in app.demand], 'aff': self.aff_ids[app.affinity.name],
-                'limits': {LEVELS[k]: v for k, v in app.affinity.limits.items() if v != float('inf')},
+                'limits': self.__dict__.get('declared_limits', {}).get(
+                    self.app_ids[app.name],
+                    {LEVELS[k]: v for k, v in app.affinity.limits.items() if v != float('inf')}),
                 'traits': int(app.traits), 'lease': app.lease, 'drt': app.data_retention_timeout,
                 'group': self.group_ids.get(app.identity_group) if app.identity_group else None,
                 'once': bool(app.schedule_once), 'evicted': bool(app.evicted), 'blacklisted': bool(app.blacklisted),
